@@ -2,6 +2,8 @@ import LLRP.Oracle.Common
 import LLRP.Oracle.C19
 import LLRP.Oracle.Codec
 import LLRP.Oracle.C18
+import LLRP.Oracle.C16
+import LLRP.Oracle.C17
 /-!
 `oracle`: line-protocol driver of the executable models (one request per line on stdin, one reply per line on
 stdout). Imports only `LLRP.Model.*`, `LLRP.Gen.*` and `LLRP.Oracle.*` (never Mathlib, never proofs) so that it
@@ -13,7 +15,9 @@ open LLRP LLRP.Oracle
 def handlers : List Handler := [
   handleC19,
   handleCodec,
-  handleC18
+  handleC18,
+  handleC16,
+  handleC17
 ]
 
 def handle (line : String) : String :=
